@@ -679,6 +679,9 @@ class Engine:
     def store(s, st, p, ty, v, stack=None):
         rt = s.L.res(ty)
         if isinstance(p, PtrIte):
+            ra = s.check(st, zbool(p.c)); rb = s.check(st, z3.Not(zbool(p.c)))
+            if ra == 'unsat': return s.store(st, p.b, ty, v, stack)
+            if rb == 'unsat': return s.store(st, p.a, ty, v, stack)
             oa = s.load(st, p.a, ty, stack); ob_ = s.load(st, p.b, ty, stack)
             s.store(st, p.a, ty, s.select(st, p.c, v, oa, rt), stack)
             s.store(st, p.b, ty, s.select(st, p.c, ob_, v, rt), stack)
